@@ -3,6 +3,8 @@
 //   C15.cpp       main(), io::write/io::read, endianness::swap/convert/reverse_mem
 //   C15_text.cpp  output_to_*string -> extract_from_string, enum strings/streams, vector/dim streams
 //   C15_conv.cpp  narrow/widen/from_std_wstring/to_std_wstring (+_locale) in C.UTF-8
+//   C15_state.cpp   history (sticky state left by earlier conversions) and stream-state (hex/oct/showbase/...) dimensions
+//   C15_env.cpp     scripted output sinks / input sources (environment answers) and hostile wide tokens
 //   C15_locale.cpp  the *_locale text entry points with digit-grouping locales, under several global locales
 #pragma once
 #include <vrt.hpp>
@@ -22,6 +24,8 @@ void register_binary();
 void register_text();
 void register_conv();
 void register_locale();
+void register_state();
+void register_env();
 
 template <class T> constexpr i128 lo() { return static_cast<i128>(std::numeric_limits<T>::min()); }
 template <class T> constexpr i128 hi() { return static_cast<i128>(std::numeric_limits<T>::max()); }
